@@ -56,6 +56,7 @@ def run(ctx: Ctx) -> None:
     pending_not_lost(ctx, py, rs)
     reti_source_stable(ctx, rs)
     reti_clears_delivered(ctx, rs)
+    vector_read_at_delivery(ctx, py, rs)
 
 
 # ---------------------------------------------------------------------------
@@ -915,3 +916,41 @@ def reti_clears_delivered(ctx: Ctx, rs: RustProgram) -> None:
                                   f"the RETI epilogue clears the status bit taken first from `{what}` and only then from the mask recorded at delivery: press_on_key / arm_pending_irq_from_isr re-point irq_source while a handler "
                                   "runs, so RETI clears a request that was never delivered (it is lost) and leaves the delivered one set (its handler runs again)", f"{step.file}:{st['ln']}")
     ctx.instance("C12.2/reti-clears-delivered", "RETI epilogue of CoreRuntime::step: the cleared mask comes from the delivery record first", n, 1)
+
+
+def vector_read_at_delivery(ctx: Ctx, py: PyProgram, rs: RustProgram) -> None:
+    """Execution continues at the vector *as it is in memory when the interrupt is taken*: the value handed to set_pc in the Rust
+    delivery is made of memory loads at the vector address performed by the delivery (directly, or in a helper that does nothing but
+    load) - not a copy kept in a field of the runtime, which goes stale when firmware or the host rewrites the vector."""
+    fn = rs.fn(isa.LIB_RS, "CoreRuntime::deliver_pending_irq")
+    defs = rs_defs(fn.body)
+    n = 0
+    for c in walk(fn.body):
+        if not rs_is_mcall(c, "set_pc", "self.state"):
+            continue
+        n += 1
+        from ..rules import rs_canon
+        t = rs_canon(c["args"][0], defs)
+        if "INTERRUPT_VECTOR_ADDR" in t and "load(" in t:
+            continue
+        # through a helper method of the runtime?
+        helpers = [x for x in walk(c["args"][0])] + [v for x in walk(c["args"][0]) if x.get("k") == "path" for v in defs.get(x["p"], []) if isinstance(v, dict)]
+        called = {x["m"] for h in helpers for x in walk(h) if x.get("k") == "mcall" and expr_text(x["recv"]) == "self"}
+        verdict = f"the PC value `{t[:80]}` is not loaded from INTERRUPT_VECTOR_ADDR in the delivery"
+        ok = False
+        for m in sorted(called):
+            try:
+                h = rs.fn(isa.LIB_RS, f"CoreRuntime::{m}")
+            except AnalysisError:
+                continue
+            body_t = expr_text(h.body)
+            loads = "INTERRUPT_VECTOR_ADDR" in body_t and "load(" in body_t
+            fields_written = {expr_text(a["l"]) for a in walk(h.body) if a.get("k") in ("assign", "opassign") and expr_text(a["l"]).startswith("self.")}
+            fields_read = {expr_text(x) for x in walk(h.body) if x.get("k") == "field" and expr_text(x).startswith("self.") and expr_text(x) in fields_written}
+            if loads and not fields_written:
+                ok = True
+            elif fields_written:
+                verdict = f"CoreRuntime::{m} answers from the field(s) {sorted(fields_written)} it fills on first use: after the vector bytes at INTERRUPT_VECTOR_ADDR are rewritten, later interrupts still enter the old handler"
+        if not ok:
+            ctx.violation("C12.2/vector-live", key_of(fn.file, fn.qual, "interrupt vector not read from memory at delivery"), f"{fn.qual}: {verdict}", f"{fn.file}:{c['ln']}")
+    ctx.instance("C12.2/vector-live", "set_pc sites of the Rust delivery: the value is loaded from the vector address by the delivery itself", n, 1)
